@@ -29,8 +29,11 @@ build() { # build <plain|instr> -> binary path in $BIN
 	else
 		go run ./cmd/mqinstr -repo "$REPO" -out "$T/instr" -overlay "$T/overlay.json" -report "$T/report.json" >"$T/instr.log" 2>&1 \
 			|| { cat "$T/instr.log" >&2; die "static analysis of $REPO failed"; }
-		go build -tags verif -o "$T/mccheck" ./cmd/mccheck >"$T/build.log" 2>&1 \
+		go build -tags verif -o "$T/mccheck-plain" ./cmd/mccheck >"$T/build.log" 2>&1 \
 			|| { cat "$T/build.log" >&2; die "build failed"; }
+		BIN="$T/mccheck-plain"
+		cd "$VERIF"
+		return
 	fi
 	BIN="$T/mccheck"
 	cd "$VERIF"
@@ -59,6 +62,10 @@ replay)
 C[0-9][0-9])
 	id=$1
 	tier=${2:-${VERIF_TIER:-quick}}
+	if [ "$id" = C11 ]; then
+		build plain
+		export VERIF_PLAIN_BIN="$BIN"
+	fi
 	build "$(mode_of "$id")"
 	mkdir -p "$VERIF/evidence" "$VERIF/replays"
 	extra=()
